@@ -77,17 +77,21 @@ def main():
         shutil.rmtree(outd, ignore_errors=True)
         dst = V / 'seeded' / f'{pid}-{k}'
         dst.mkdir(parents=True, exist_ok=True)
-        shutil.copy(src / 'patch.diff', dst / 'patch.diff')
-        shutil.copy(src / 'demo.py', dst / 'demo.py')
+        if src.resolve() != dst.resolve():
+            shutil.copy(src / 'patch.diff', dst / 'patch.diff')
+            shutil.copy(src / 'demo.py', dst / 'demo.py')
         meta = {}
         try:
             meta = json.loads((src / 'meta.json').read_text())
+            for kk in ('rebased',):
+                pass
         except Exception:
             pass
         caught = 'concrete-input' if (rcc == 1 and any('no-failing-input-found' not in ln for ln in lines if ln.startswith('VIOLATION'))) \
             else ('no-failing-input-found' if rcc == 1 else 'MISSED' if rcc == 0 else f'exit {rcc}')
         m = {'property': pid, 'summary': meta.get('summary'), 'needs_to_manifest': meta.get('needs_to_manifest'),
              'clause_broken': meta.get('clause_broken'), 'author': 'independent sub-agent given only the property text and a scratch worktree',
+             'rebased': meta.get('rebased'),
              'confirmed_by_me': ran, f'check_{tier}': {'exit': rcc, 'caught': caught, 'replays': replays[:3]}}
         old = dst / 'meta.json'
         if old.exists():
